@@ -677,3 +677,8 @@ def run(ctx):
     # the optimum that is reported is the score of the path that is returned (shared with C03)
     from . import c03
     c03.score_of_exit_rule(ctx, P)
+    # the search takes one null step per exit because the closure has composed all chains with their best
+    # probability: a closure that stops before probabilities have converged loses the optimum (seed C02-10)
+    from . import c13
+    from ..report import Only
+    c13.run(Only(ctx, ("PROV.W5-transforms",)))
